@@ -322,6 +322,18 @@ func run(c *core.Ctx) error {
 			id++
 		}
 		add(sign+digits, r.V.Base)
+		if len(digits) >= 8 {
+			// the same numeral with `_` separators between groups of three digits (counted from the right): the
+			// separators are skipped, whichever machine word of the parser's chunking they fall into
+			var g strings.Builder
+			for i, ch := range digits {
+				if i > 0 && (len(digits)-i)%3 == 0 {
+					g.WriteByte('_')
+				}
+				g.WriteRune(ch)
+			}
+			add(sign+g.String(), r.V.Base)
+		}
 		// prefix inference (base 0) for the prefixes the documentation of to_int lists
 		if r.V.Pre == "x" || r.V.Pre == "d" || r.V.Pre == "o" || r.V.Pre == "b" {
 			add(sign+"0"+r.V.Pre+digits, 0)
